@@ -69,7 +69,7 @@ Proof.
     - exact (Hd y Hy Hpy). }
   destruct r as [q'|e].
   - destruct Hr as [q [_ [Hval Hr]]].
-    destruct (find (fun m => mq_hash m =? lq_hash q) (d_mq (w_db w))).
+    destruct (internal_mq q (w_db w)).
     + destruct Hr as [pre [_ [He _]]]. eapply Heff; eassumption.
     + destruct Hr as [_ [He _]]. eapply Heff; eassumption.
   - destruct Hr as [[Hdb _]|[_ [q [_ [Hval [He _]]]]]]; [rewrite Hdb; exact Hd|]. eapply Heff; eassumption.
@@ -235,7 +235,7 @@ Proof.
     apply Z.eqb_eq in E2.
     destruct Hr as [q [_ [Hval Hr]]].
     assert (Heff : exists pre, melt_effect id ins w0 w' 2 pre).
-    { destruct (find (fun m => mq_hash m =? lq_hash q) (d_mq (w_db w0))).
+    { destruct (internal_mq q (w_db w0)).
       - destruct Hr as [pre [_ [He _]]]. exists pre. exact He.
       - destruct Hr as [Hq' [He _]]. rewrite Hq', with_state_state in E2. rewrite E2 in He. eexists. exact He. }
     destruct Heff as [pre [_ [_ [_ Hcases]]]].
